@@ -227,7 +227,7 @@ func runOS(ep *entryPoint, spec treeSpec, mode, arg string, k int64, flavour str
 		endCtx()
 	}
 	var fired atomic.Bool
-	var removes atomic.Int64
+	var removes, lstats atomic.Int64
 	base := e.sh.Count()
 	e.sh.ResetLog()
 	e.sh.Rec = true
@@ -241,6 +241,9 @@ func runOS(ep *entryPoint, spec treeSpec, mode, arg string, k int64, flavour str
 		}
 		if ep.RemoveFault > 0 && op.Name == "Remove" && removes.Add(1) == int64(ep.RemoveFault) {
 			return &os.PathError{Op: "remove", Path: op.Path, Err: syscall.EPERM}
+		}
+		if ep.LstatFault > 0 && op.Name == "Lstat" && lstats.Add(1) == int64(ep.LstatFault) {
+			return &os.PathError{Op: "lstat", Path: op.Path, Err: syscall.EIO}
 		}
 		return nil
 	})
